@@ -88,7 +88,10 @@ class Prepared:
             return None
         key = loose[op['a'] % len(loose)]
         data = world.model[key]
-        damaged = [b'garbage' + data[:5], data[: len(data) // 2] if data else b'x', data + b'\x00'][op['f'] % 3]
+        variants = [b'garbage' + data[:5], data[: len(data) // 2] if data else b'x', data + b'\x00']
+        if data:
+            variants.append(data[:-1] + bytes([data[-1] ^ 0xFF]))  # same size
+        damaged = variants[op['f'] % len(variants)]
         with open(raw.loose_paths[key], 'wb') as fhandle:
             fhandle.write(damaged)
         self.planted[key] = damaged
